@@ -107,7 +107,7 @@ def is_position_pass(ctx, b):
     return any(f['item_ok'] and f['pos_ok'] and f['yielders'] and all(ok for (_y, ok) in f['yielders']) for f in facts)
 
 
-@rule('GC1', ['C01', 'C02', 'C04'], floor=1, template='must-pass-through')
+@rule('GC1', ['C01', 'C02', 'C04', 'C18'], floor=1, template='must-pass-through')
 def gc1(ctx):
     """Every unlink is dominated (on every call chain) by a position pass over the empty queues."""
     sites = unlink_prim_sites(ctx)
@@ -212,7 +212,7 @@ def acc_idiom_false_edges(ctx, b, logs):
     return out
 
 
-@rule('GC2w', ['C02', 'C04', 'C01'], floor=1, template='must-pass-through')
+@rule('GC2w', ['C02', 'C04', 'C01', 'C18'], floor=1, template='must-pass-through')
 def gc2w(ctx):
     """Position entries written by the GC pass are flushed+fsynced before anything is unlinked."""
     pred = s_site(ctx)
@@ -248,7 +248,7 @@ def gc2w(ctx):
         ctx.missing('frame', 'no (position pass, unlink) pair found')
 
 
-@rule('GC3', ['C01', 'C02', 'C04'], floor=1, template='liveness')
+@rule('GC3', ['C01', 'C02', 'C04', 'C18'], floor=1, template='liveness')
 def gc3(ctx):
     """The writer's current file is pinned by a live FileNumber clone across the position pass."""
     n = 0
@@ -372,6 +372,7 @@ def gc4(ctx):
             for e, (lo, hi) in bounds.items():
                 if lo >= 2 and b.edge_dominates(e, cs.point):
                     len_ok = True
+                    ctx._gc4_lo = min(getattr(ctx, '_gc4_lo', 1 << 60), lo)
         ctx.check(len_ok, key + ':len>=2', where(b, cs.point), 'removal dominated by the edge on which at least 2 files are tracked',
                   'the oldest file can be popped when fewer than 2 files are tracked (the file being written could be deleted)')
         # can_be_deleted(first())
@@ -479,6 +480,26 @@ def gc6(ctx):
                       'the GC trigger does not test (count >= 2 and first file unreferenced): files may never be reclaimed, or GC may run for nothing')
     if n == 0:
         ctx.missing('trigger', 'no boolean trigger calling can_be_deleted guards the GC pass')
+    # the action keeps exactly as many files as the trigger assumes (2): re-derive the action's bound
+    lo_found = None
+    for (b, cs, m) in tracker_removals(ctx):
+        fl = flow_of(b)
+        for bi, blk in enumerate(b.blocks):
+            if not b.live[bi] or blk['term']['k'] != 'switch':
+                continue
+            cb = cmp_bounds(b, bi)
+            if not cb:
+                continue
+            x, bounds, _o = cb
+            back = fl.backward(set(fl.op_nodes(x)))
+            if not any(c.name.endswith('::len') and 'BTreeSet' in c.name and any(nn in back for nn in fl.call_result_nodes(c)) for c in b.calls):
+                continue
+            for e, (lo, hi) in bounds.items():
+                if b.edge_dominates(e, cs.point) and lo != float('-inf'):
+                    lo_found = lo if lo_found is None else min(lo_found, lo)
+    if lo_found is not None:
+        ctx.check(lo_found == 2, 'action-bound', '-', 'the removal runs as soon as 2 files are tracked (same bound as the trigger)',
+                  'the removal requires at least %s tracked files but the trigger fires at 2: an unreferenced oldest file is kept although GC was triggered' % lo_found, nontrivial=False)
 
 
 @rule('GC7', ['C06'], floor=3, template='must-pass-through')
